@@ -4,6 +4,8 @@ ASSUME ndJsonSerialize(IOEnv.OUT_RANGES, SetToSeq(SameBaseRanges \cup HugeStepRa
 ASSUME ndJsonSerialize(IOEnv.OUT_CROSS, SetToSeq(CrossBaseTable))
 ASSUME ndJsonSerialize(IOEnv.OUT_MUT, SetToSeq({[kind |-> m.kind, why |-> m.why, term |-> m.term, enc |-> Encode(m.term)] : m \in Mutations}))
 ASSUME ndJsonSerialize(IOEnv.OUT_VALID, SetToSeq({[kind |-> m.kind, term |-> m.term, fields |-> m.fields, enc |-> Encode(m.term)] : m \in Valid}))
+ASSUME ndJsonSerialize(IOEnv.OUT_PROPS, SetToSeq(PropCases))
+ASSUME PrintT(<<"proplists", Cardinality(PropCases)>>)
 ASSUME PrintT(<<"ranges", Cardinality(SameBaseRanges), Cardinality(HugeStepRanges), "mutations", Cardinality(Mutations), "valid", Cardinality(Valid)>>)
 VARIABLE x
 Init == x = 0
